@@ -780,8 +780,8 @@ class Bin(Factory, Container):
         """
         # trivial case
         if low is None and high is None:
-            bw = self.bin_width()
-            return np.arange(self.low + bw / 2.0, self.high + bw / 2.0, bw)
+            # (one centre per bin: np.arange over the float width can yield one element too many)
+            return self.low + (np.arange(len(self.values)) + 0.5) * self.bin_width()
         # catch weird cases
         if low is not None and high is not None:
             if low > high:
